@@ -426,3 +426,58 @@ def run_CK1(chk, rule, modules, floor_sites=0):
                                 f"created in an empty sector and overlaps evaluate to 0")
     chk.require(n >= floor_sites, f"{rule}: {n} add_charges sites with a leg-sector argument found (>= {floor_sites} confirmed by hand)")
     return n
+
+
+# ------------------------------------------------ S6 per-leg charge slices of flat block-charge tuples are aligned
+def _nsym_poly(e):
+    """polynomial of an index expression with every spelling of the number of symmetry components mapped to one symbol"""
+    import copy
+    from ..core.poly import from_ast
+
+    class R(ast.NodeTransformer):
+        def visit_Attribute(self, n):
+            if n.attr == "NSYM":
+                return ast.Name(id="nsym", ctx=ast.Load())
+            return ast.Name(id="<" + A.text(n) + ">", ctx=ast.Load())
+
+        def visit_Name(self, n):
+            return ast.Name(id="nsym", ctx=ast.Load()) if n.id in ("nsym", "NSYM") else n
+
+        def visit_Subscript(self, n):
+            return ast.Name(id="<" + A.text(n) + ">", ctx=ast.Load())
+
+        def visit_Call(self, n):
+            return ast.Name(id="<" + A.text(n) + ">", ctx=ast.Load())
+    return from_ast(R().visit(copy.deepcopy(e)))
+
+
+def run_S6(chk, rule="S6", prefixes=("yastn.tensor", "yastn.initialize", "yastn.krylov"), floor=25):
+    """Block charges are stored flat: leg k owns components [k*nsym, (k+1)*nsym).  Every slice whose width is nsym (as a
+    polynomial identity upper - lower == nsym) must start at a multiple of nsym (every monomial of `lower` contains nsym).
+    A start such as `ax` instead of `ax*nsym` is identical for one-component symmetries (U1, Z2, Z3) — the symmetries
+    the tests use — and reads the charge of the wrong leg for product symmetries."""
+    from ..core.poly import Poly, Rat
+    prog = chk.prog
+    n = 0
+    for f in prog.all_funcs():
+        if not f.module.name.startswith(prefixes):
+            continue
+        for x in ast.walk(f.node):
+            if not (isinstance(x, ast.Subscript) and isinstance(x.slice, ast.Slice) and x.slice.step is None and x.slice.upper is not None):
+                continue
+            lo, up = x.slice.lower, x.slice.upper
+            try:
+                pu = _nsym_poly(up)
+                pl = _nsym_poly(lo) if lo is not None else Rat(Poly.const(0))
+                if not (pu - pl).equals(Rat(Poly.sym("nsym"))):
+                    continue
+            except Exception:
+                continue
+            n += 1
+            aligned = pl.d.is_const() and all(any(s == "nsym" for s, _ in m) for m in pl.n.t)
+            chk.verdict(rule, (f, x), x, True if aligned else False,
+                        f"{f.short}: `{A.text(x)}` takes {A.text(up)} - ({A.text(lo) if lo is not None else 0}) = nsym components of a flat "
+                        f"block-charge tuple but does not start at a multiple of nsym: for symmetries with more than one component "
+                        f"(Z2xU1, U1xU1, ...) it mixes the charges of two legs; for one-component symmetries it is indistinguishable")
+    chk.require(n >= floor, f"{rule}: only {n} width-nsym slices found ({floor} confirmed by hand)")
+    return n
